@@ -6,6 +6,11 @@ import BM.Gen.SrcPins
 namespace BM.Props
 
 def C12_units : List (String × String) := [
+  ("sanitize.go/func/*Policy.Sanitize", "9ba7d669ac7a66cc"),
+  ("sanitize.go/func/*Policy.SanitizeBytes", "757e2ab378b5f7df"),
+  ("sanitize.go/func/*Policy.SanitizeReader", "08410f91f837f43a"),
+  ("sanitize.go/func/*Policy.SanitizeReaderToWriter", "567a76ba99acc83b"),
+  ("sanitize.go/func/*Policy.sanitizeWithBuff", "a00e1f64f0d0c903"),
   ("sanitize.go/func/*Policy.sanitizeAttrs/if:p.requireCrossOriginAnonymous && len(cleanAttrs) > 0", "2ca403c50501b381"),
   ("sanitize.go/func/*Policy.sanitizeAttrs/if:p.requireSandboxOnIFrame != nil && elementName == \"iframe\"", "2ea14c0ddfac8b22")
 ]
